@@ -201,3 +201,134 @@ theorem materializeLoop_result (s : Sig) : ∀ (ps pre : List Param) (i : Nat) (
       · exact al q hq hqd hqk
 
 end Fiddle
+
+namespace Fiddle
+
+theorem MatResult.contains_mono {s : Sig} {a b : Cfg} (h : MatResult s a b) (k : Key)
+    (hk : a.args.contains k = true) : b.args.contains k = true := by
+  obtain ⟨ad, e, _⟩ := h.ext
+  simp only [Dict.contains, e, Dict.get?_append] at hk ⊢
+  cases hg : a.args.get? k with
+  | none => simp [hg] at hk
+  | some v => simp
+
+theorem contains_setValue_other (c : Cfg) (k k' : Key) (p : Param) (h : k ≠ k') :
+    (c.setValue k (Sig.dfltVal p)).args.contains k' = c.args.contains k' := by
+  rw [setValue_plain c k _ (dfltVal_plain p)]
+  simp [log_args, Dict.contains, Dict.get?_set_other _ _ _ _ h]
+
+theorem contains_setValue_same (c : Cfg) (k : Key) (p : Param) :
+    (c.setValue k (Sig.dfltVal p)).args.contains k = true := by
+  rw [setValue_plain c k _ (dfltVal_plain p)]
+  simp [log_args, Dict.contains, Dict.get?_set_same]
+
+/-- A second run of the loop over a state that already contains everything the first run left
+    is the identity. `d` is any state that contains what the first run's result contains and
+    agrees with the first run's *input* on the required positional-only parameters (which the
+    loop never sets). -/
+theorem materializeLoop_noop (s : Sig) : ∀ (ps pre : List Param) (i : Nat) (pf : Bool)
+    (c c' d : Cfg), s = pre ++ ps → pre.length = i → Cfg.materializeLoop s ps i pf c = .ok c' →
+    (∀ k, c'.args.contains k = true → d.args.contains k = true) →
+    (∀ (j : Nat) (q : Param), s[j]? = some q → q.kind = .po → q.dflt = false →
+      d.args.contains (.idx j) = c.args.contains (.idx j)) →
+    Cfg.materializeLoop s ps i pf d = .ok d := by
+  intro ps
+  induction ps with
+  | nil => intro pre i pf c c' d _ _ _ _ _; simp [Cfg.materializeLoop]
+  | cons p ps ih =>
+    intro pre i pf c c' d hs hlen h hsup hreq
+    have hs' : s = (pre ++ [p]) ++ ps := by simp [hs]
+    have hlen' : (pre ++ [p]).length = i + 1 := by simp [hlen]
+    have hsi : s[i]? = some p := by rw [hs, ← hlen]; simp
+    by_cases hd' : p.dflt = true
+    · by_cases hpo' : p.kind = .po
+      · simp [Cfg.materializeLoop, hd', hpo'] at h ⊢
+        split at h
+        · rename_i hcond
+          have hskip : (d.args.contains (.idx i) = true ∨ pf = false) := by
+            rcases hcond with hc | hpf
+            · left
+              have r := (materializeLoop_result s ps (pre ++ [p]) (i + 1) pf c c' hs' hlen' h).1
+              exact hsup _ (r.contains_mono _ hc)
+            · right; exact hpf
+          rw [if_pos hskip]
+          exact ih _ _ _ _ _ _ hs' hlen' h hsup hreq
+        · rename_i hcond
+          split at h
+          · rename_i c1 hset
+            have e1 := setItem_po s c c1 i p _ hsi hpo' hset
+            have r := (materializeLoop_result s ps (pre ++ [p]) (i + 1) pf c1 c' hs' hlen' h).1
+            have hin : d.args.contains (.idx i) = true := by
+              apply hsup; apply r.contains_mono
+              rw [e1]; exact contains_setValue_same c _ p
+            rw [if_pos (Or.inl hin)]
+            refine ih _ _ _ _ _ _ hs' hlen' h hsup ?_
+            intro j q hq hqk hqd
+            rw [hreq j q hq hqk hqd, e1]
+            have hne : (Key.idx (i : Int)) ≠ .idx (j : Int) := by
+              intro e
+              simp only [Key.idx.injEq] at e
+              have : i = j := by omega
+              subst this
+              rw [hsi] at hq; cases hq
+              rw [hd'] at hqd; cases hqd
+            exact (contains_setValue_other c _ _ p hne).symm
+          · cases h
+      · simp [Cfg.materializeLoop, hd', hpo'] at h ⊢
+        split at h
+        · rename_i hcont
+          have r := (materializeLoop_result s ps (pre ++ [p]) (i + 1) pf c c' hs' hlen' h).1
+          have hin : d.args.contains (.name p.name) = true := hsup _ (r.contains_mono _ hcont)
+          rw [if_pos hin]
+          exact ih _ _ _ _ _ _ hs' hlen' h hsup hreq
+        · split at h
+          · rename_i c1 hset
+            have e1 : c1 = c.setValue (.name p.name) (Sig.dfltVal p) := by
+              unfold Cfg.setAttr at hset
+              split at hset
+              · cases hset; rfl
+              · cases hset
+            have r := (materializeLoop_result s ps (pre ++ [p]) (i + 1) pf c1 c' hs' hlen' h).1
+            have hin : d.args.contains (.name p.name) = true := by
+              apply hsup; apply r.contains_mono
+              rw [e1]; exact contains_setValue_same c _ p
+            rw [if_pos hin]
+            refine ih _ _ _ _ _ _ hs' hlen' h hsup ?_
+            intro j q hq hqk hqd
+            rw [hreq j q hq hqk hqd, e1]
+            exact (contains_setValue_other c _ _ p (by intro e; cases e)).symm
+          · cases h
+    · simp [Cfg.materializeLoop, hd'] at h ⊢
+      have hflag : (if p.kind = Kind.po then pf && d.args.contains (.idx i) else pf) =
+          (if p.kind = Kind.po then pf && c.args.contains (.idx i) else pf) := by
+        by_cases hk : p.kind = .po
+        · simp only [hk, if_true]
+          rw [hreq i p hsi hk (by simpa using hd')]
+        · simp [hk]
+      rw [hflag]
+      exact ih _ _ _ _ _ _ hs' hlen' h hsup hreq
+
+/-- `materialize_defaults` is idempotent: a second run changes nothing at all. -/
+theorem materializeDefaults_idempotent (s : Sig) (c c' : Cfg)
+    (h : c.materializeDefaults s = .ok c') : c'.materializeDefaults s = .ok c' := by
+  apply materializeLoop_noop s s [] 0 true c c' c' rfl rfl h (fun _ hk => hk)
+  intro j q hq hqk hqd
+  obtain ⟨added, e, pa⟩ := (materializeLoop_result s s [] 0 true c c' rfl rfl h).1.ext
+  simp only [Dict.contains, e, Dict.get?_append]
+  cases hg : c.args.get? (.idx j) with
+  | some v => simp
+  | none =>
+    cases ha : added.get? (.idx j) with
+    | none => simp
+    | some v =>
+      exfalso
+      obtain ⟨_, p, _, hpd, _, hkey⟩ := pa (.idx j, v) (Dict.get?_mem added _ _ ha)
+      rcases hkey with ⟨_, e'⟩ | ⟨_, i', hi', e'⟩
+      · cases e'
+      · simp only [Key.idx.injEq] at e'
+        have : i' = j := by omega
+        subst this
+        rw [hi'] at hq; cases hq
+        rw [hpd] at hqd; cases hqd
+
+end Fiddle
